@@ -679,7 +679,8 @@ Proof.
     simpl in H. destruct (negb _); try discriminate. inversion H; subst.
     exists x. split; [reflexivity|]. split; [exact I|]. split; auto.
   - destruct (run f (SLazy x0 []) p) as [s|] eqn:E; try discriminate.
-    destruct (IH s Hf eq_refl) as (x & -> & I & V & In0). inversion H; subst. simpl.
+    destruct (IH s Hf eq_refl) as (x & -> & I & V & In0). inversion H; subst. unfold touch.
+    destruct (inplace_compaction f); [|exists x; split; [reflexivity|]; split; [exact I|]; split; auto].
     destruct (sv_eval p) eqn:Esv.
     + exists (contiguous x). split; [simpl; rewrite Esv; reflexivity|]. split; [apply Inv_contiguous; auto|].
       rewrite view_contiguous by auto. split; auto.
